@@ -93,6 +93,16 @@ def gen_ext(rng, n):
             "sem": rng.choice([None] + SEMS), "refers": rng.sample(["r1", "r2"], rng.randint(0, 2))}
 
 
+# embedded data specifications: [data specification id, preferred name (en), unit] - content that hangs BELOW an attribute value
+EDS_POOL = [None, None, None, ["urn:ds:1", "pn1", None], ["urn:ds:1", "pn2", "m"], ["urn:ds:2", "pn1", None]]
+
+
+def gen_adm(rng):
+    """administration: version, revision and (third component) its own embedded data specifications - the SDK's
+    AdministrativeInformation.__eq__ does not look at those, so two administrations that differ only there compare =="""
+    return rng.choice([None, ["1", "2"], ["3", None], ["1", "2", ["urn:ds:1", "pn1", None]], ["1", "2", ["urn:ds:1", "pn2", "m"]]])
+
+
 def gen_common(rng, spec):
     spec["cat"] = rng.choice([None, None, "PARAMETER", "CONSTANT", "VARIABLE"])
     spec["desc"] = rng.choice([None, {"en": "d"}, {"en": "d", "de": "ä"}])
@@ -100,6 +110,7 @@ def gen_common(rng, spec):
     spec["sem"] = rng.choice([None] + SEMS)
     spec["supp"] = rng.sample(SEMS, rng.randint(0, 2)) if spec["sem"] else []
     spec["src"] = rng.choice(["", "", "mock://a"])
+    spec["eds"] = rng.choice(EDS_POOL)
     spec["e"] = [gen_ext(rng, n) for n in rng.sample(["ex", "ey", "ez"], rng.choice([0, 0, 1, 2]))]
     if spec["c"] != "AssetAdministrationShell":
         spec["q"] = [gen_qual(rng, t) for t in rng.sample(["qa", "qb", "qc"], rng.choice([0, 0, 1, 2]))]
@@ -140,10 +151,10 @@ def gen_leaf_attrs(rng, spec, vt=None):
     elif c == "Submodel":
         a["id"] = "urn:sm:1"
         a["kind"] = rng.choice(["INSTANCE", "TEMPLATE"])
-        a["adm"] = rng.choice([None, ["1", "2"], ["3", None]])
+        a["adm"] = gen_adm(rng)
     elif c == "AssetAdministrationShell":
         a["id"] = "urn:aas:1"
-        a["adm"] = rng.choice([None, ["1", "2"]])
+        a["adm"] = gen_adm(rng)
         a["ak"] = rng.choice(["INSTANCE", "TYPE"])
         a["gid"] = rng.choice(["urn:g:1", "urn:g:2"])
         a["sids"] = rng.choice([[], [["n1", "v1"]]])
@@ -207,9 +218,20 @@ def build(spec, hist=False):
     def ext(e):
         return model.Extension(e["n"], tp(e["vt"]), e["v"], [mref(r) for r in e["refers"]], ref(e["sem"]))
 
+    def eds(e):
+        if e is None:
+            return ()
+        return [model.EmbeddedDataSpecification(ref(e[0]), model.DataSpecificationIEC61360(
+            model.PreferredNameTypeIEC61360({"en": e[1]}), unit=e[2]))]
+
+    def adm_of(x):
+        if x is None:
+            return None
+        return model.AdministrativeInformation(version=x[0], revision=x[1], embedded_data_specifications=eds(x[2] if len(x) > 2 else None))
+
     c = spec["c"]
     a = spec.get("a", {})
-    common = dict(display_name=lang(model.MultiLanguageNameType, spec["dn"]), category=spec["cat"],
+    common = dict(embedded_data_specifications=eds(spec.get("eds")), display_name=lang(model.MultiLanguageNameType, spec["dn"]), category=spec["cat"],
                   description=lang(model.MultiLanguageTextType, spec["desc"]), extension=[ext(e) for e in spec["e"]])
     if c != "AssetAdministrationShell":
         common.update(semantic_id=ref(spec["sem"]), supplemental_semantic_id=[ref(s) for s in spec["supp"]],
@@ -250,11 +272,11 @@ def build(spec, hist=False):
     elif c == "Operation":
         o = model.Operation(i, kids["input_variable"], kids["output_variable"], kids["in_output_variable"], **common)
     elif c == "Submodel":
-        adm = None if a["adm"] is None else model.AdministrativeInformation(version=a["adm"][0], revision=a["adm"][1])
+        adm = adm_of(a["adm"])
         o = model.Submodel(a["id"], kids["submodel_element"], id_short=i, administration=adm, kind=model.ModellingKind[a["kind"]],
                            **common)
     elif c == "AssetAdministrationShell":
-        adm = None if a["adm"] is None else model.AdministrativeInformation(version=a["adm"][0], revision=a["adm"][1])
+        adm = adm_of(a["adm"])
         ai = model.AssetInformation(model.AssetKind[a["ak"]], a["gid"], [model.SpecificAssetId(n, v) for n, v in a["sids"]], a["at"])
         o = model.AssetAdministrationShell(ai, a["id"], id_short=i, administration=adm, submodel={mref(s) for s in a["sms"]},
                                            derived_from=None if a["df"] is None else model.ModelReference(
@@ -311,8 +333,17 @@ def edit(rng, spec, depth) -> List[str]:
     tag = []
     c = node["c"]
     if r < 0.2:
-        f = rng.choice(["cat", "desc", "dn", "sem", "leaf", "src"])
-        if f == "cat":
+        f = rng.choice(["cat", "desc", "dn", "sem", "leaf", "src", "eds", "adm-eds"])
+        if f == "eds":
+            node["eds"] = rng.choice([x for x in EDS_POOL if x != node.get("eds")])
+            tag.append("eds")
+        elif f == "adm-eds":
+            adm = node.get("a", {}).get("adm")
+            if adm is not None:
+                # ONLY the data specifications below the administration change: old and new administration compare == in Python
+                node["a"]["adm"] = adm[:2] + [rng.choice([x for x in EDS_POOL[2:] if x != (adm[2] if len(adm) > 2 else None)])]
+                tag.append("adm-eds-only")
+        elif f == "cat":
             node["cat"] = rng.choice([None, "PARAMETER", "CONSTANT", "VARIABLE"])
         elif f == "desc":
             node["desc"] = rng.choice([None, {"en": "changed"}, {"fr": "x"}])
@@ -476,6 +507,11 @@ def cval(v) -> Any:
         return ["ai", cval(v.asset_kind), v.global_asset_id, cval(v.specific_asset_id), v.asset_type, cval(v.default_thumbnail)]
     if isinstance(v, model.Resource):
         return ["res", v.path, v.content_type]
+    if isinstance(v, model.EmbeddedDataSpecification):
+        return ["eds", cval(v.data_specification), cval(v.data_specification_content)]
+    if isinstance(v, model.DataSpecificationIEC61360):
+        return ["iec61360"] + [cval(getattr(v, a)) for a in ("preferred_name", "data_type", "definition", "short_name", "unit", "unit_id",
+                                                              "source_of_definition", "symbol", "value_format", "value_list", "value", "level_types")]
     return [type(v).__name__, str(v)]
 
 
@@ -1044,3 +1080,21 @@ def _retypes():
 
 
 DIRECTED += _retypes()
+
+
+def _sm(adm, eds=None, kids=()):
+    d = _leaf("Submodel", "root", id="urn:sm:1", kind="INSTANCE", adm=adm)
+    d["eds"] = eds
+    d["kids"] = {"submodel_element": list(kids)}
+    return d
+
+
+# directed: the copy differs from the live object ONLY in content that hangs below an attribute value whose Python `==` does
+# not look at it (the data specifications of an administration), resp. only in a node's own data specifications
+DIRECTED += [
+    {"live": _sm(["1", "2", ["urn:ds:1", "pn1", None]]), "new": _sm(["1", "2", ["urn:ds:1", "pn2", "m"]]), "us": False, "holder": None, "tags": ["adm-eds-only"]},
+    {"live": _sm(["1", "2"]), "new": _sm(["1", "2", ["urn:ds:1", "pn1", None]]), "us": False, "holder": None, "tags": ["adm-eds-only"]},
+    {"live": _sm(["1", "2", ["urn:ds:1", "pn1", None]]), "new": _sm(["1", "2"]), "us": True, "holder": None, "tags": ["adm-eds-only"]},
+    {"live": _sm(None, ["urn:ds:1", "pn1", None], [dict(P("x"), eds=["urn:ds:1", "pn1", None])]),
+     "new": _sm(None, ["urn:ds:1", "pn2", None], [dict(P("x"), eds=["urn:ds:2", "pn1", None])]), "us": False, "holder": None, "tags": ["eds"]},
+]
